@@ -1,4 +1,5 @@
 """C13 — scanning is lossless and follows the lexical rules (structural clauses)."""
+import re
 from facts import norm, Origins, _rv_operands
 from progress import dominating_variant_facts
 from table import Table, TooComplex, render
@@ -54,6 +55,7 @@ def check_c13(prog, rep, tier, cfg):
     c13b(prog, rep)
     c13c(prog, rep)
     c13d(prog, rep)
+    c13e(prog, rep)
 
 
 def c13a(prog, rep):
@@ -215,16 +217,7 @@ def c13b(prog, rep):
                 covered |= set(range(lo, hi + 1))
         rep.analysed["dispatch_map_bytes_with_handler"] = len(covered)
         rep.floor(R, "dispatch map rows", len(rows), 27)
-    # blank definition agrees in the three places
-    cl = prog.body(LX + "count_leading_whitespace")
-    cu = prog.find(r"lexer::count_unicode_whitespace::\{closure#0\}$")
-    if rep.check(cl is not None and len(cu) == 1, R, "anchor:blank-counters", "count_leading_whitespace / count_unicode_whitespace closure not found"):
-        ints = sorted({v for k, v in consts_in(cl) if k == "int" and v > 1})
-        rep.check(ints == [32, 127], R, "blank:ascii<=0x20", "count_leading_whitespace compares bytes against %s (expected 0x20 and 0x7F)" % ints, instance={"constants": ints})
-        chars = sorted({v for k, v in consts_in(cu[0], ("char",))})
-        rep.check(chars == [0x20, 0x3000], R, "blank:unicode<=0x20|U+3000", "count_unicode_whitespace treats %s as blank" % [hex(c) for c in chars], instance={"constants": [hex(c) for c in chars]})
-        rep.check(0x3000 in gchars, R, "AGREE:U+3000-excluded-from-identifiers", "U+3000 is blank but no longer excluded from identifier characters")
-        rep.check(len(cl.calls_to(LX + "count_unicode_whitespace")) == 1, R, "blank:ascii-counter-defers-on-high-bit", "count_leading_whitespace no longer defers to count_unicode_whitespace on a non-ASCII byte")
+    blank_definition(prog, rep, R)
     # dispatcher stores/uses only the two sibling routines
     det = prog.body(LX + "find_identifier_end_x86_64::detect")
     if rep.check(det is not None, R, "anchor:detect", "detect not found"):
@@ -236,6 +229,77 @@ def c13b(prog, rep):
                   instance={"candidates": sorted(short(f) for f in fns)})
         fd = [c for c in det.calls() if "is_feature_detected" in (c.callee or "") or "detect" in (c.callee or "")]
         rep.check(len(fd) >= 1, R, "avx2-only-if-detected", "detect no longer asks for the avx2 CPU feature")
+
+
+def blank_definition(prog, rep, R):
+    """What the lexer drops as a token's leading whitespace is exactly the blank set {<= 0x20, U+3000} (the whitespace is
+    regenerated from counters, so a non-blank character counted here is lost: shared by C13.b and C01.e)."""
+    gen = prog.find(r"lexer::find_identifier_end_generic::\{closure#0\}$")
+    gchars = sorted({v for k, v in consts_in(gen[0], ("char",))}) if len(gen) == 1 else []
+    cl = prog.body(LX + "count_leading_whitespace")
+    cu = prog.find(r"lexer::count_unicode_whitespace::\{closure#0\}$")
+    if rep.check(cl is not None and len(cu) == 1, R, "anchor:blank-counters", "count_leading_whitespace / count_unicode_whitespace closure not found"):
+        ints = sorted({v for k, v in consts_in(cl) if k == "int" and v > 1})
+        rep.check(ints == [32, 127], R, "blank:ascii<=0x20", "count_leading_whitespace compares bytes against %s (expected 0x20 and 0x7F)" % ints, instance={"constants": ints})
+        chars = sorted({v for k, v in consts_in(cu[0], ("char",))})
+        rep.check(chars == [0x20, 0x3000], R, "blank:unicode<=0x20|U+3000", "count_unicode_whitespace treats %s as blank" % [hex(c) for c in chars], instance={"constants": [hex(c) for c in chars]})
+        rep.check(0x3000 in gchars, R, "AGREE:U+3000-excluded-from-identifiers", "U+3000 is blank but no longer excluded from identifier characters")
+        rep.check(len(cl.calls_to(LX + "count_unicode_whitespace")) == 1, R, "blank:ascii-counter-defers-on-high-bit", "count_leading_whitespace no longer defers to count_unicode_whitespace on a non-ASCII byte")
+
+
+def c13e(prog, rep):
+    """Closed inventory of the terminator searches of the lexer (library byte searches that decide where a token ends),
+    and agreement of each block-comment kind with its own closing delimiter."""
+    R = "C13.e"
+    from progress import dominating_variant_facts
+    rows = []
+    for b in prog.bodies.values():
+        if not b.npath.startswith(LX):
+            continue
+        for c in b.calls():
+            if (c.callee or "").startswith("memchr::"):
+                args = []
+                for a in c.args:
+                    x = canon(b, a)
+                    if len(x) > 70:   # long start expressions are summarised by their range shape (names inside are not stable)
+                        x = re.sub(r"\{.*\}", "{..}", x)
+                    args.append(x)
+                rows.append((b.npath[len(LX):], c.callee.split("::")[-1], tuple(args)))
+    want = [
+        ("_block_comment", "memchr", ("10", "index(as_bytes(arg1.input),Range{arg1.offset,arg3@Some.0})")),
+        ("find_block_comment_end", "find", ("index(as_bytes(arg1.input),RangeFrom{arg1.offset})", "b'*)'")),
+        ("find_block_comment_end", "memchr", ("125", "index(as_bytes(arg1.input),RangeFrom{arg1.offset})")),
+        ("line_comment", "memchr2", ("10", "13", "index(as_bytes(arg1.input),RangeFrom{arg1.offset})")),
+        ("text_literal", "find", ("index(as_bytes(arg1.input),RangeFrom{..})", "index(as_bytes(arg1.input),Range{..})")),
+        ("text_literal::consume_pascal_str", "memchr3", ("39", "10", "13", "index(as_bytes(arg1),RangeFrom{arg2})")),
+    ]
+    extra = sorted(set(rows) - set(want))
+    missing = sorted(set(want) - set(rows))
+    rep.check(not extra and not missing, R, "terminator-searches", "the lexer's byte searches changed: new/changed %s, gone %s (each decides where a token ends: needle set and the text searched are reviewed)" % (extra, missing),
+              instance={"searches": ["%s: %s%s" % r for r in sorted(rows)]})
+    fb = prog.body(LX + "find_block_comment_end")
+    if rep.check(fb is not None, R, "anchor:find_block_comment_end", "find_block_comment_end not found"):
+        pairs = {}
+        for c in fb.calls():
+            if not (c.callee or "").startswith("memchr::"):
+                continue
+            kinds = [f[2][0] for f in dominating_variant_facts(prog, fb, c.bb) if f[1] == "is"]
+            needle = [a for a in c.args if a["k"] == "const" or canon(fb, a).startswith("b'")]
+            ntxt = [canon(fb, a) for a in needle]
+            nlen = len(eval(ntxt[0])) if ntxt and ntxt[0].startswith("b'") else 1
+            # the closure mapped over the result adds offset + found + <needle length>
+            added = None
+            for m in fb.calls_to("core::option::Option::map"):
+                o = Origins(fb).of_operand(m.args[0])
+                if any(x[0] == "call" and x[1] == c.bb for x in o):
+                    clos = fb.locals[m.args[1]["place"]["l"]].get("closure") if m.args[1]["k"] in ("copy", "move") else None
+                    cb = prog.body(norm(clos)) if clos else None
+                    if cb is not None:
+                        added = sorted(v for k, v in consts_in(cb) if k == "int")
+            pairs[tuple(kinds)] = (c.callee.split("::")[-1], ntxt, nlen, added)
+        want2 = {("ParenStar",): ("find", ["b'*)'"], 2, [2]), ("Brace",): ("memchr", ["125"], 1, [1])}
+        rep.check(pairs == want2, R, "AGREE:kind<->closing-delimiter", "block-comment kinds are closed by %s (expected ParenStar: first `*)` after the opener, +2; Brace: first `}`, +1)" % pairs,
+                  instance={"pairs": {"/".join(k): str(v) for k, v in pairs.items()}})
 
 
 def c13c(prog, rep):
